@@ -35,6 +35,7 @@ type Facts struct {
 	Validation     []RejectRule        `json:"validation"`     // the argument-validation chain of the redact Run closure, symbolically executed: ordered reject conditions
 	ValidationUnk  []string            `json:"validationUnknown"` // constructs of the chain the translator could not express (a translator failure)
 	Missing        []string            `json:"missing"`
+	CleanupExits   []Use               `json:"cleanupExits"`   // every way out of the Run closure once the downloaded logs exist: (kind: cleaned | bare | defer | none, pos)
 	Window         string              `json:"window"`         // GetStartAndEndDates translated to a Lean expression over now / atlasLogStartDate / atlasLogEndDate
 	WindowUnk      []string            `json:"windowUnknown"`
 	KeyLits        []string            `json:"keyLits"`        // string literals in key positions of the redaction path (comparisons, case clauses, call arguments, list elements)
@@ -442,6 +443,7 @@ func main() {
 		}
 		walk(runLit.Body.List, 0)
 		validationChain(runLit, &facts)
+		cleanupExits(runLit, &facts)
 	}
 	atlasLiterals(files, &facts)
 
@@ -1568,4 +1570,123 @@ func translateWindow(files []*ast.File, facts *Facts) {
 	}
 	facts.Window = w.block(fd.Body.List, 1)
 	facts.WindowUnk = w.unk
+}
+
+
+// ---------------------------------------------------------------------------------------------
+// C17: once the downloaded logs exist (after the function value that calls DeleteClusterLogs has been
+// bound), every os.Exit / log.Fatal / panic in the rest of that block must be preceded, in its own
+// block, by a call of that function value (os.Exit does not run deferred calls), and a `defer` of it must
+// cover the normal return.  Reported: one entry per exit (cleaned | bare) and one for the defer (defer | none).
+func cleanupExits(runLit *ast.FuncLit, facts *Facts) {
+	var scan func(stmts []ast.Stmt) bool
+	found := false
+	scan = func(stmts []ast.Stmt) bool {
+		for i, st := range stmts {
+			if as, ok := st.(*ast.AssignStmt); ok && len(as.Lhs) == 1 && len(as.Rhs) == 1 {
+				if fl, ok := as.Rhs[0].(*ast.FuncLit); ok && len(calleesIn(fl.Body, map[string]bool{"client.DeleteClusterLogs": true, "c.DeleteClusterLogs": true, "DeleteClusterLogs": true})) > 0 || func() bool {
+					fl, ok := as.Rhs[0].(*ast.FuncLit)
+					if !ok {
+						return false
+					}
+					hit := false
+					ast.Inspect(fl.Body, func(x ast.Node) bool {
+						if c, ok := x.(*ast.CallExpr); ok && strings.HasSuffix(callName(c), "DeleteClusterLogs") {
+							hit = true
+						}
+						return true
+					})
+					return hit
+				}() {
+					id, ok := as.Lhs[0].(*ast.Ident)
+					if !ok {
+						continue
+					}
+					found = true
+					name := id.Name
+					rest := stmts[i+1:]
+					deferred := false
+					var walk func(block []ast.Stmt)
+					isCleanupCall := func(s ast.Stmt) bool {
+						es, ok := s.(*ast.ExprStmt)
+						if !ok {
+							return false
+						}
+						c, ok := es.X.(*ast.CallExpr)
+						if !ok {
+							return false
+						}
+						f, ok := c.Fun.(*ast.Ident)
+						return ok && f.Name == name
+					}
+					walk = func(block []ast.Stmt) {
+						for k, b := range block {
+							switch t := b.(type) {
+							case *ast.DeferStmt:
+								if f, ok := t.Call.Fun.(*ast.Ident); ok && f.Name == name {
+									deferred = true
+								}
+							case *ast.ExprStmt:
+								if c, ok := t.X.(*ast.CallExpr); ok {
+									nm := callName(c)
+									if nm == "os.Exit" || strings.HasPrefix(nm, "log.Fatal") || nm == "panic" {
+										cleaned := false
+										for q := 0; q < k; q++ {
+											if isCleanupCall(block[q]) {
+												cleaned = true
+											}
+										}
+										kind := "bare"
+										if cleaned {
+											kind = "cleaned"
+										}
+										facts.CleanupExits = append(facts.CleanupExits, Use{Ident: nm, Kind: kind, Pos: pos(c)})
+									}
+								}
+							case *ast.IfStmt:
+								walk(t.Body.List)
+								if el, ok := t.Else.(*ast.BlockStmt); ok {
+									walk(el.List)
+								} else if el, ok := t.Else.(*ast.IfStmt); ok {
+									walk([]ast.Stmt{el})
+								}
+							case *ast.ForStmt:
+								walk(t.Body.List)
+							case *ast.RangeStmt:
+								walk(t.Body.List)
+							case *ast.BlockStmt:
+								walk(t.List)
+							case *ast.SwitchStmt:
+								for _, cc := range t.Body.List {
+									walk(cc.(*ast.CaseClause).Body)
+								}
+							}
+						}
+					}
+					walk(rest)
+					dk := "none"
+					if deferred {
+						dk = "defer"
+					}
+					facts.CleanupExits = append(facts.CleanupExits, Use{Ident: name, Kind: dk, Pos: pos(as)})
+					return true
+				}
+			}
+			switch t := st.(type) {
+			case *ast.IfStmt:
+				if scan(t.Body.List) {
+					return true
+				}
+			case *ast.BlockStmt:
+				if scan(t.List) {
+					return true
+				}
+			}
+		}
+		return false
+	}
+	scan(runLit.Body.List)
+	if !found {
+		facts.Missing = append(facts.Missing, "a function value that calls DeleteClusterLogs in the Run closure")
+	}
 }
